@@ -203,6 +203,10 @@ Definition F16_class (t u : list N) (offs : list nat) (p : nat) : Prop :=
                 nth p offs 0%nat = (nth q offs 0%nat + k)%nat /\
                 In (nth q offs 0%nat, c) (indexed t).
 
+(* non-decreasing along the normalized text *)
+Definition monotone (l : list nat) : Prop :=
+  forall i j, (i <= j)%nat -> (j < length l)%nat -> (nth i l 0 <= nth j l 0)%nat.
+
 (* regex matches are ranges (start <= end); needed for monotonicity only *)
 Definition find_ranges (O : oracles) : Prop :=
   forall p t ms, o_find O p t = Some ms -> Forall (fun m => (fst m <= snd m)%nat) ms.
